@@ -103,6 +103,19 @@ impl<S> MergeUnbounded<S> {
     }
 }
 
+#[cfg(futures_buffered_verif)]
+impl<S> MergeUnbounded<S> {
+    /// Like `new`, but the first group has capacity `n` (so that group rotation is reachable with few sources).
+    pub fn verif_with_first_capacity(n: usize) -> Self {
+        Self {
+            groups: Vec::from_iter([MergeBounded {
+                streams: FuturesUnorderedBounded::new(n),
+            }]),
+            poll_next: 0,
+        }
+    }
+}
+
 impl<S: Stream + Unpin> Stream for MergeUnbounded<S> {
     type Item = S::Item;
 
